@@ -192,6 +192,9 @@ impl ISocketConnection for ZmtpSmartConnection {
   }
 }
 
+/// How often an io_uring PUSH / PUB connection with single-shot reads looks for the peer's FIN.
+const EOF_PROBE_INTERVAL: Duration = Duration::from_millis(100);
+
 /// Protocol-aware io_uring connection handler.
 ///
 /// Owns a `ZmtpEngine` and drives all handshake and data-phase framing directly
@@ -220,6 +223,8 @@ pub(crate) struct ZmtpUringHandler {
   /// One deadline for the whole ZMTP handshake (HANDSHAKE_IVL), as on the Tokio session:
   /// `prepare_sqes` polls it, cleared once the engine reaches the data phase.
   handshake_deadline: Option<Instant>,
+  /// PUSH / PUB with single-shot reads: when the next read may be armed to look for the peer's FIN.
+  next_eof_probe: std::cell::Cell<Instant>,
   use_send_zerocopy: bool,
   use_recv_multishot: bool,
   send_buffer_slot_size: usize,
@@ -260,6 +265,7 @@ impl ZmtpUringHandler {
       is_closing: false,
       close_deadline: None,
       handshake_deadline: Some(handshake_deadline),
+      next_eof_probe: std::cell::Cell::new(Instant::now()),
       use_send_zerocopy,
       use_recv_multishot,
       send_buffer_slot_size,
@@ -582,7 +588,7 @@ impl UringConnectionHandler for ZmtpUringHandler {
     }
 
     // (a) Re-arm multishot read.
-    if !self.is_closing && !self.should_throttle_reads() {
+    if self.multishot_reader.is_some() && !self.is_closing && !self.should_throttle_reads() {
       if let Some(reader) = &mut self.multishot_reader {
         if let Some(blueprint) = reader.prepare_recv_multi_intent() {
           ops.sqe_blueprints.push(blueprint);
@@ -759,7 +765,17 @@ impl UringConnectionHandler for ZmtpUringHandler {
       && self.engine.phase == crate::protocol::zmtp::engine::ZmtpPhase::Data
       && self.engine.config().heartbeat_ivl.is_none()
     {
-      return true;
+      // Nothing to read but the peer's FIN. A multishot read stays armed from the handshake and
+      // reports it; with single-shot reads one is armed now and then, so that a peer that went
+      // away is noticed (and reconnected to) instead of being sent to for ever.
+      if self.multishot_reader.is_some() {
+        return true;
+      }
+      let now = Instant::now();
+      if now < self.next_eof_probe.get() {
+        return true;
+      }
+      self.next_eof_probe.set(now + EOF_PROBE_INTERVAL);
     }
 
 
